@@ -15,5 +15,13 @@ package ndjson
 //@   iteration 0: overlap_forces_the_tagged_form: (lastResult(ndjsoncommon.GetJsonDataType) & possibleTypes) != 0 ==> !next(simplfied)
 //@   iteration 0: tagged_form_is_final: !old(simplfied) ==> !next(simplfied)
 
+// docs/reference/ndjson.md, records: a field that is an option or a union with null is left out when it is null - and
+// whether it is can depend on a type argument (`item: T` with T = `int?`), which the writers decide at run time. The
+// C++ reader therefore takes every field of a record as possibly absent: each one is looked up with `find`, none with
+// the throwing `at`.
+//@ func writeRecordConverters@emits:"if (auto it = j.find(\"%s\"); it != j.end()) {\n"
+//@   property C02
+//@   iteration 0: every_field_may_be_absent: emittedHere("if (auto it = j.find(\"%s\"); it != j.end()) {\n") == 1 && emittedHere("it->get_to(value.%s);\n") == 1
+
 // Output may not depend on the iteration order of a Go map (C12): decided per `range` over a map.
 //@ map-order C12 package
